@@ -529,7 +529,10 @@ class Gen:
                 w = self.new_wave()
             wt = self.regs[w]
             ptype = {'Pupil': 'pupil', 'Image': 'image', 'Plane': wt['ptype']}[pt['cls']]
-            self.emit({'f': 'mul', 'p': p, 'w': w}, {'t': 'W', 'ptype': ptype, 'tilt': wt['tilt'] or pt['tilt']})
+            st = {'f': 'mul', 'p': p, 'w': w}
+            if rng.random() < 0.3:
+                st['order'] = 'pw'
+            self.emit(st, {'t': 'W', 'ptype': ptype, 'tilt': wt['tilt'] or pt['tilt']})
         elif x < 0.53:
             w = self.pupil_wave()
             osamp = rng.choice([1, 2])
@@ -578,7 +581,8 @@ class Gen:
         name = rng.choice(['adc', 'adc', 'collect_charge', 'collect_charge', 'collect_charge_bayer', 'pixel', 'pixelate',
                            'charge_diffusion', 'jitter', 'smear', 'util_rescale', 'rebin', 'shot_noise', 'shot_noise',
                            'read_noise', 'read_noise', 'dark_current', 'power_spectrum', 'smear_random', 'cosmic_rays',
-                           'normalize_power', 'pad', 'window'])
+                           'normalize_power', 'pad', 'window', 'rule07', 'bayer_channels', 'scratch_shape', 'plane_read',
+                           'plane_read'])
         res = {'t': 'A', 'kind': 'res', 'n': 0, 'frozen': False}
         if name == 'adc':
             g = rng.choice(['scalar', 'gain1', 'gain2'])
@@ -608,6 +612,18 @@ class Gen:
             self.emit({'f': 'fn', 'name': 'read_noise', 'args': [self.arr('img')], 'seed': rng.randint(0, 5)}, res)
         elif name == 'dark_current':
             self.emit({'f': 'fn', 'name': 'dark_current', 'args': [], 'seed': rng.randint(0, 5)}, res)
+        elif name == 'rule07':
+            self.emit({'f': 'fn', 'name': 'rule07', 'args': [], 'seed': rng.randint(0, 5)}, res)
+        elif name == 'bayer_channels':
+            self.emit({'f': 'fn', 'name': 'bayer_channels', 'args': [self.arr('cube'), self.arr('wv3'), self.arr('qe')]}, {'t': 'N'})
+        elif name == 'scratch_shape':
+            self.emit({'f': 'fn', 'name': 'scratch_shape', 'args': [], 'wl': rng.randint(0, 1), 'os': rng.choice([1, 2])}, {'t': 'N'})
+        elif name == 'plane_read':
+            cands = self.find(lambda t: t['t'] == 'P' and t['cls'] != 'Image' and t['arrmask'])
+            if cands:
+                self.emit({'f': 'fn', 'name': 'plane_read', 'args': [rng.choice(cands)],
+                           'attr': rng.choice(['ptt_vector', 'ptt_vector', 'diameter', 'shape', 'size', 'pixelscale', 'ptype'])},
+                          {'t': 'N'})
         elif name == 'power_spectrum':
             self.emit({'f': 'fn', 'name': 'power_spectrum', 'args': [self.arr('mask')], 'seed': rng.randint(0, 5)}, res)
         elif name == 'smear_random':
@@ -1062,7 +1078,7 @@ FN_CODES = {'adc': 101, 'collect_charge': 102, 'collect_charge_bayer': 103, 'pix
             'charge_diffusion': 106, 'jitter': 107, 'smear': 108, 'util_rescale': 109, 'rebin': 110, 'shot_noise': 111,
             'read_noise': 112, 'dark_current': 113, 'power_spectrum': 114, 'sample': 115, 'normalize_power': 116,
             'zernike_basis': 117, 'zernike_fit': 118, 'zernike_remove': 119, 'zernike_compose': 120, 'zernike_coordinates': 121,
-            'tilt_shift': 128, 'mesh': 122, 'rectangle': 123, 'circle': 124, 'hexagon': 125, 'pad': 126, 'window': 127,
+            'tilt_shift': 128, 'rule07': 129, 'bayer_channels': 130, 'scratch_shape': 131, 'plane_read': 132, 'mesh': 122, 'rectangle': 123, 'circle': 124, 'hexagon': 125, 'pad': 126, 'window': 127,
             'smear_random': 201, 'cosmic_rays': 202}
 
 
@@ -1361,6 +1377,8 @@ def call_step(s, args, n):
             return lentil.Wavefront(WLS[s['wl']], tilt=[s['tilt'][0] * 1e-6, s['tilt'][1] * 1e-6]), []
         return lentil.Wavefront(WLS[s['wl']]), []
     if f == 'mul':
+        if s.get('order') == 'pw':
+            return args['p'] * args['w'], []        # Wavefront.__rmul__
         return args['w'] * args['p'], []
     if f == 'prop_dft':
         return lentil.propagate_dft(args['w'], pixelscale=DU, shape=(s['shape'], s['shape']), oversample=s['os']), []
@@ -1417,6 +1435,15 @@ def call_step(s, args, n):
             return D.read_noise(a[0], 5, seed=s['seed']), []
         if nm == 'dark_current':
             return D.dark_current(200, shape=(n, n), fpn_factor=0.3, seed=s['seed']), []
+        if nm == 'rule07':
+            return D.rule07_dark_current(150.0, 5e-6, 18e-6, shape=(n, n), fpn_factor=0.3, seed=s['seed']), []
+        if nm == 'bayer_channels':
+            return D.collect_charge_bayer(a[0], a[1], a[2], 0.5, a[2], 'RGGB', oversample=1, flatten=False), []
+        if nm == 'scratch_shape':
+            return lentil.propagate.scratch_shape(WLS[s['wl']], DX, DU, FOCAL, s['os']), []
+        if nm == 'plane_read':
+            v = getattr(a[0], s['attr'])
+            return (str(v) if s['attr'] == 'ptype' else v), []
         if nm == 'power_spectrum':
             return lentil.power_spectrum(a[0], pixelscale=DX, rms=1e-8, half_power_freq=5, exp=3, seed=s['seed']), []
         if nm == 'sample':
@@ -1482,7 +1509,7 @@ def step_args(s, regs):
     return {k: s[k] for k in ARGKEYS[s['f']] if s.get(k) is not None}
 
 
-SEEDED = ('shot_noise', 'read_noise', 'dark_current', 'power_spectrum')
+SEEDED = ('shot_noise', 'read_noise', 'dark_current', 'power_spectrum', 'rule07')
 
 
 WORKSPACE = {'prop_fft': 'scratch', 'dft2': 'out'}     # buffers whose previous contents must not matter
@@ -1964,6 +1991,9 @@ def run_hist(c):
             b, new = tr.buf_of(res)
             rec['res'] = ('A', None, [b])
             regs.append(res)
+        elif not isinstance(res, (lentil.Plane, lentil.Wavefront, lentil.radiometry.Spectrum)) and not isinstance(res, tuple):
+            rec['res'] = ('N', None, [])        # a plain value (number, string, shape)
+            regs.append(None)
         elif isinstance(res, tuple):
             for x in res:            # e.g. mesh, zernike_coordinates: the returned arrays are the caller's from now on
                 if isinstance(x, np.ndarray):
